@@ -114,21 +114,27 @@ def with_same_package(spec, rng, mode):
                          {"name": "SecondLeaf", "def": pipegen.gen_struct(rng, [], 2)}]
         extra["defs"][0]["def"]["fields"].append({"name": "leaf", "type": {"t": "ref", "to": "SecondLeaf"}, "required": False})
     else:
-        # redefine a leaf definition (no references inside) of the first input
-        leaf = None
-        for d in base["defs"]:
-            if all(f["type"]["t"] not in ("ref", "oneof", "array", "map") for f in d["def"]["fields"]) and d is not base["defs"][0]:
-                leaf = d
-        if leaf is None:
-            leaf = {"name": "SharedLeaf", "def": {"kind": "struct", "fields": [{"name": "name", "type": {"t": "string"}, "required": True}]}}
+        # redefine leaf definitions (no references inside) of the first input: every one identically, except that
+        # in the conflict modes one of them (the first / the last / a random one of the shared ones) differs
+        leaves = [d for d in base["defs"][1:]
+                  if all(f["type"]["t"] not in ("ref", "oneof", "array", "map") for f in d["def"]["fields"]) and d["def"]["fields"]]
+        k = 0
+        while len(leaves) < 3:
+            leaf = {"name": "SharedLeaf%s" % (k or ""), "def": {"kind": "struct", "fields": [{"name": "name", "type": {"t": "string"}, "required": True}]}}
+            k += 1
             base["defs"].append(leaf)
+            leaves.append(leaf)
         pipegen.link_unreferenced(base["defs"])
-        shared = copy.deepcopy(leaf)
-        if mode == "conflict":
-            f0 = shared["def"]["fields"][0]
+        shared = [copy.deepcopy(d) for d in leaves[:4]]
+        if mode.startswith("conflict"):
+            shared.sort(key=lambda d: d["name"])
+            which = {"conflict-first": 0, "conflict-last": len(shared) - 1}.get(mode, rng.randrange(len(shared)))
+            f0 = shared[which]["def"]["fields"][0]
             f0["type"] = {"t": "boolean"} if f0["type"]["t"] != "boolean" else {"t": "string"}
+            if mode == "conflict":
+                rng.shuffle(shared)
         extra["defs"] = [{"name": "SecondRoot", "def": {"kind": "struct", "fields": [
-            {"name": "shared", "type": {"t": "ref", "to": shared["name"]}, "required": False}]}}, shared]
+            {"name": "shared%d" % i, "type": {"t": "ref", "to": d["name"]}, "required": False} for i, d in enumerate(shared)]}}] + shared
     s["inputs"].append(extra)
     return s
 
@@ -205,7 +211,7 @@ def run(ctx, verdict, replay=None, model_ok=True):
         for _ in range(3 if thorough else 2):
             variants.append((bi, "input-permutation", None, permuted_inputs(spec, rng)))
         variants.append((bi, "extra-package", None, with_extra_package(spec, rng)))
-        for mode in ("disjoint", "equal", "conflict"):
+        for mode in ("disjoint", "equal", "conflict", "conflict-first", "conflict-last"):
             variants.append((bi, "same-package-" + mode, None, with_same_package(spec, rng, mode)))
     cfgs = []
     for i, v in enumerate(variants):
@@ -277,9 +283,9 @@ def run(ctx, verdict, replay=None, model_ok=True):
             if diffs:
                 fail(rel, lang_of(diffs[0]), i, {"differing": sorted(diffs)[:10]})
         elif rel.startswith("same-package-"):
-            want = "Err" if rel.endswith("conflict") else "Ok"
+            want = "Err" if "conflict" in rel else "Ok"
             if V["status"] != want:
-                fail("same-package-merge", rel.split("-")[-1] + ":" + V["status"], i,
+                fail("same-package-merge", ("conflict" if "conflict" in rel else rel.split("-")[-1]) + ":" + V["status"], i,
                      {"expected": want, "status": V["status"], "err": V.get("err_text")})
 
     # ---------------- Consolidate: model vs implementation, and union-or-conflict on the implementation
